@@ -327,6 +327,9 @@ type VerifFullConfig struct {
 	// WalRotated: the image is written as the rotated file <wal>.000 and no head file exists (a crash right after the
 	// group rotated its head)
 	WalRotated bool
+	// WalSplit > 0: the first WalSplit bytes of the image are written as the rotated file <wal>.000 and the rest as the
+	// head (the group rotated its head at that record boundary and the node went on writing before the crash)
+	WalSplit int
 	Rec      *VerifRecorder
 	// Genesis, when set, replaces the built-in single-validator genesis (e.g. a shipped genesis file).
 	// It is used read-only except for what Genesis.ToBlock itself does to its Alloc map: pass a fresh
@@ -463,7 +466,14 @@ func VerifBootFull(c VerifFullConfig) (n *VerifNode, err error) {
 		if c.WalRotated {
 			to = walFile + ".000"
 		}
-		if err := os.WriteFile(to, c.WalImage, 0600); err != nil {
+		img := c.WalImage
+		if c.WalSplit > 0 && c.WalSplit < len(img) && !c.WalRotated {
+			if err := os.WriteFile(walFile+".000", img[:c.WalSplit], 0600); err != nil {
+				return nil, err
+			}
+			img = img[c.WalSplit:]
+		}
+		if err := os.WriteFile(to, img, 0600); err != nil {
 			return nil, err
 		}
 	}
